@@ -163,6 +163,8 @@ class Threads(EngineBase):
             r = rng.random()
             if r < 0.14:
                 ops.append({"op": "enter"})
+                if rng.random() < 0.15:
+                    ops[-1]["interrupt_at"] = rng.randrange(1, 16)
             elif r < 0.26:
                 ops.append({"op": rng.choice(["exit", "exit", "exit_exc"])})
             elif r < 0.30:
@@ -276,7 +278,40 @@ class Threads(EngineBase):
             k.begin_op(idx)
             exc_cls = None
             try:
-                if kind == "enter":
+                if kind == "enter" and op.get("interrupt_at"):
+                    # an asynchronous exception (a signal handler raising a
+                    # timeout, KeyboardInterrupt) lands on the n-th source
+                    # line oneshot() executes while the block is entered
+                    import sys as _sys
+                    seen_ = [0]
+
+                    def _local(frame, event, arg):
+                        if event == "line":
+                            seen_[0] += 1
+                            if seen_[0] == op["interrupt_at"]:
+                                raise _BlockBoom()
+                        return _local
+
+                    def _tracer(frame, event, arg):
+                        co = frame.f_code
+                        if co.co_name == "oneshot" and \
+                                co.co_filename.endswith("psutil/__init__.py"):
+                            return _local
+                        return None
+
+                    cm = p.oneshot()
+                    _sys.settrace(_tracer)
+                    try:
+                        cm.__enter__()
+                        stack.append(cm)
+                    except _BlockBoom:
+                        kind = "enter_failed"
+                        probes["block_entry_interrupted"] = probes.get(
+                            "block_entry_interrupted", 0) + 1
+                    finally:
+                        _sys.settrace(None)
+                    out = ("value", None)
+                elif kind == "enter":
                     cm = p.oneshot()
                     cm.__enter__()
                     stack.append(cm)
@@ -387,6 +422,12 @@ class Threads(EngineBase):
                             continue
                         opens[what] = opens.get(what, 0) + 1
             in_block = bool(stack) or (kind in ("exit", "exit_exc"))
+            if kind == "enter_failed":
+                # the block was never entered: nothing may stay behind
+                if not stack:
+                    block = None
+                    just_exited = True
+                continue
             # ---- bookkeeping of the block
             if kind == "enter":
                 if len(stack) == 1:
